@@ -15,6 +15,7 @@ class Spec:
     assumptions = ()
     rule = ""
     harness_mode = "lines"
+    shards = None            # processes for the harness run (None: by case count)
 
     def cases(self, tier, seed):
         """-> list of (case_line, tags) ; tags: set of strings describing which
@@ -109,7 +110,7 @@ def run_spec(spec, tier, seed, replay=None):
         cases = [c for c, _ in cs]
         tags = [t for _, t in cs]
         log("%s: %d cases -> harness" % (spec.pid, len(cases)))
-        impl = vlib.run_lines([vlib.HARNESS_BIN, spec.harness_mode], cases)
+        impl = vlib.run_lines([vlib.HARNESS_BIN, spec.harness_mode], cases, shards=spec.shards)
         if ok_m:
             log("%s: %d cases -> model" % (spec.pid, len(cases)))
             model = vlib.run_lines([vlib.MODELRUN], cases)
